@@ -40,6 +40,19 @@ def lit_sx(node):
     raise TypeError(node)
 
 
+def rebuilt_default(f):
+    """an introspected field has no SDL node: the default literal is what graphql-core renders from the
+    coerced default (ast_from_value); Undefined -> no default"""
+    from graphql import GraphQLError, Undefined, ast_from_value
+
+    if f.default_value is Undefined:
+        return None
+    try:
+        return ast_from_value(f.default_value, f.type)
+    except (TypeError, GraphQLError):
+        return None
+
+
 def schema_sx(gs):
     """scalars (custom), enums and input objects in type_map order"""
     out = []
@@ -55,6 +68,8 @@ def schema_sx(gs):
             fs = []
             for fn, f in t.fields.items():
                 d = f.ast_node.default_value if f.ast_node is not None else None
+                if d is None and f.ast_node is None:
+                    d = rebuilt_default(f)
                 fs.append([fn, type_sx(f.type), opt(lit_sx(d)) if d is not None else None])
             out.append([name, Sym("input")] + fs)
     return out
